@@ -36,3 +36,8 @@ Qed.
 (* ... outside the range the rule raises instead (finding C05:castconstantofshape:raises:out-of-range-value) *)
 Theorem np_int_conv_raises : np_int_conv 0 255 300 = None /\ onnx_int_cast 0 255 300 = 44 /\ np_int_conv 0 255 (-1) = None.
 Proof. repeat split; reflexivity. Qed.
+
+Example cast_example : to_f32 (2 ^ 30 + 2 ^ 19 + 1) = 2 ^ 30 + 2 ^ 19 /\ to_f16 (2 ^ 30 + 2 ^ 19) = 2 ^ 30
+  /\ to_f16 (2 ^ 30 + 2 ^ 19 + 1) = 2 ^ 30 + 2 ^ 20 /\ cc_check FLOAT BFLOAT16 = true /\ cc_check DOUBLE FLOAT16 = false
+  /\ ci_check (Some FLOAT) FLOAT = true /\ ci_check None FLOAT = false.
+Proof. repeat split; reflexivity. Qed.
